@@ -106,3 +106,9 @@ def run(ctx):
         inp.update({"scores": scores, "scores_of_reversed_series": rscores})
         ctx.violation(f"time reversal does not map the score at t to n-t: n={c['n']} b={c['b']} scores={scores} reversed={rscores}",
                       inp, {"what": "reversal"})
+    # ---- object reuse: built-in scores, the same detector over several series ----
+    from harness.reuse import reuse_stream
+    from skchange.costs import GaussianVarCost
+    from skchange.change_detectors import MovingWindow as MW
+    reuse_stream(ctx, "MovingWindow(CUSUM)", lambda: MW(bandwidth=3), ctx.n(6, 40), tuned_make=lambda: MW(bandwidth=4, threshold_scale=None, level=0.1))
+    reuse_stream(ctx, "MovingWindow(GaussianVarCost)", lambda: MW(change_score=GaussianVarCost(), bandwidth=5), ctx.n(3, 20))
